@@ -273,7 +273,16 @@ fn parse_nmea_sentence(data: &[u8]) -> IResult<&[u8], (&[u8], AisSentence, u8)> 
     let (data, _) = opt(delimited(tag("\\"), take_until("\\"), tag("\\")))(data)?;
     let (data, _) = alt((tag("!"), tag("$")))(data)?;
     let (data, raw) = peek(take_until("*"))(data)?;
-    let (data, msg) = terminated(parse_ais_sentence, tag("*"))(data)?;
+    let (rest, msg) = terminated(parse_ais_sentence, tag("*"))(data)?;
+    // The checksum covers everything up to the first '*', so that has to be
+    // the '*' that terminates the sentence fields
+    if data.len() - rest.len() != raw.len() + 1 {
+        return Err(nom::Err::Error(nom::error::Error::new(
+            data,
+            nom::error::ErrorKind::Verify,
+        )));
+    }
+    let data = rest;
     let (data, checksum) = verify(hex_u32, |val| val <= &0xff)(data)?;
     Ok((data, (raw, msg, checksum as u8)))
 }
